@@ -15,6 +15,7 @@ extern "C" {
 #include "linepart.cpp"
 #include "polyline.cpp"
 #include "values.h"
+#include "layout.h"
 
 using namespace mpt;
 
@@ -34,6 +35,34 @@ public:
 	}
 	virtual ~xtransform() { }
 };
+
+/* a user transformation that implements only dimensions(): the default transform::part() is used */
+class plaintransform : public transform
+{
+public:
+	int dimensions() const { return 3; }
+	virtual ~plaintransform() { }
+};
+/* which transformation the array is applied with: 0 = test double, 1 = layout::graph::transform3 with the
+ * ranges as limits, 2 = plain (default part()) */
+static int trkind;
+static const transform &current_transform()
+{
+	static xtransform dbl;
+	static plaintransform plain;
+	static layout::graph::transform3 t3;
+	if (trkind == 2) return plain;
+	if (trkind == 1) {
+		for (int i = 0; i < 3; i++) {
+			t3._dim[i].to.x = 1;     /* all three dimensions in use */
+			if (have_range[i]) { t3._dim[i]._flags |= TransformLimit; t3._dim[i].limit = xrange[i]; }
+			else t3._dim[i]._flags &= ~TransformLimit;
+			t3._dim[i]._flags &= ~TransformLg;
+		}
+		return t3;
+	}
+	return dbl;
+}
 
 static linepart::array *arr;
 
@@ -113,7 +142,7 @@ int main(void)
 			delete arr;
 			arr = new linepart::array;
 			for (int i = 0; i < 3; i++) { have_range[i] = false; xdata[i].clear(); }
-			xlen = 0;
+			xlen = 0; trkind = 0;
 			puts("R ok | C - | I -");
 		}
 		else if (!strcmp(op, "range") && drv_nw == 4 && !strcmp(drv_w[3], "null")) {
@@ -144,10 +173,45 @@ int main(void)
 			xlen = n;
 			dump("ok", xlen);
 		}
+		else if (!strcmp(op, "tr") && drv_nw == 3) {
+			if (!strcmp(drv_w[2], "double")) trkind = 0;
+			else if (!strcmp(drv_w[2], "t3")) trkind = 1;
+			else if (!strcmp(drv_w[2], "plain")) trkind = 2;
+			else { puts("bad-op"); continue; }
+			puts("R ok | C - | I -");
+		}
+		else if (!strcmp(op, "walk") && drv_nw == 3) {
+			/* the caller's loop on the transformation's part(): repeated calls advancing by raw */
+			const transform &tr = current_transform();
+			if (drv_parse_nat(drv_w[2], &d) || d >= 3) { puts("bad-op"); continue; }
+			size_t pos = 0, n = 0, len = xdata[d].size();
+			bool stall = false;
+			fputs("R recs=", stdout);
+			while (pos < len) {
+				linepart pt = tr.part((unsigned) d, xdata[d].data() + pos, (int) (len - pos));
+				printf("%s%u:%u:%u:%u", n ? "," : "", pt.raw, pt.usr, pt._cut, pt._trim);
+				++n;
+				if (!pt.raw) { stall = true; break; }
+				pos += pt.raw;
+			}
+			if (!n) fputc('-', stdout);
+			printf(" n=%zu%s | C - | I -\n", n, stall ? " stall" : "");
+		}
 		else if (!strcmp(op, "apply") && drv_nw == 3) {
-			xtransform tr;
+			const transform &tr = current_transform();
 			if (drv_parse_nat(drv_w[2], &d) || d >= 3) { puts("bad-op"); continue; }
 			bool was_empty = !arr->length();
+			if (was_empty) {
+				/* apply() repeats part() until the data is consumed: do not enter it with a part() that stalls */
+				size_t pos = 0, len = xdata[d].size();
+				bool stall = false;
+				while (pos < len) {
+					linepart pt = tr.part((unsigned) d, xdata[d].data() + pos, (int) (len - pos));
+					if (!pt.raw) { stall = true; break; }
+					pos += pt.raw;
+				}
+				if (stall) { puts("R stall | C - | I -"); continue; }
+			}
 			bool ok = arr->apply(tr, (int) d, span<const double>(xdata[d].data(), (long) xdata[d].size()));
 			if (ok && was_empty) xlen = xdata[d].size();
 			dump(ok ? "ok" : "refused", xlen);
